@@ -1,6 +1,9 @@
 import Driver.Codec
 import Mav.Spec.Msg
 import Mav.Spec.Writer
+import Mav.Model.Dialect
+import Mav.Model.EnumText
+import Mav.Model.EnumCheck
 /- mavdrv: one operation per line on stdin, model (and spec) answer per line on stdout. -/
 open Mav Drv
 
@@ -11,6 +14,9 @@ structure DMsg where
 
 structure DState where
   dialects : List (String × List DMsg) := []
+  allDefs : List (String × List (UInt32 × Msg.GoStruct)) := []      -- every defmsg, also structs that do not initialise
+  enums : List (String × EnumText.EnumDef) := []
+  defPkgs : List (String × String) := []                            -- "dialect id" ↦ "pkg.GoName" (preamble from tools/extract)
 
 def DState.get (s : DState) (name : String) : Option (List DMsg) :=
   if name == "-" then none else some ((s.dialects.lookup name).getD [])
@@ -90,6 +96,37 @@ def hopSpec (rcfg : RCfg) (hasDialect : Bool) (hops : Nat) (cur : Bytes) : List 
     s!"H{k+1}[fwd={if hasDialect then "*" else "same"}]:{" ".intercalate (frames.map (encRResM hasDialect))}")
   line0 :: later
 
+/-- SPEC (C19): rendering. Plain: a defined constant prints as its name, anything else as the signed decimal of the 64-bit
+    value. Bitmask: 0 prints "0"; a combination of defined flags prints the names of the flags it contains, " | "-joined;
+    other values: no requirement ("-"). -/
+def specEnumMarshal (d : EnumText.EnumDef) (v : UInt64) : String :=
+  let enc (t : List Char) : String := "t:" ++ (if t.isEmpty then "-" else toHex (String.ofList t).toUTF8.toList)
+  match d.form with
+  | .plain =>
+    (match d.consts.find? (fun c => c.2 == v.toNat) with
+    | some c => enc c.1.toList
+    | none => enc (EnumText.itoa v.toInt64.toInt))
+  | _ =>
+    if v == 0 then enc ['0'] else
+    let flags := (d.consts.filter (fun c => c.2 != 0 && (v.toNat &&& c.2) == c.2))
+    let span := flags.foldl (fun a c => a ||| c.2) 0
+    if span == v.toNat then enc (EnumText.joinSep (flags.map (·.1.toList))) else "-"
+
+/-- SPEC (C19): parsing. A known name gives its value, a decimal int64 numeral its value; bitmask texts are " | "-separated
+    lists of those, OR-ed; anything else is rejected. -/
+def specEnumUnmarshal (d : EnumText.EnumDef) (t : List Char) : String :=
+  let one (l : List Char) : Option Nat :=
+    match d.consts.find? (fun c => c.1.toList == l) with
+    | some c => some c.2
+    | none => (EnumText.atoi l).map (fun i => (EnumText.ofInt64 i).toNat)
+  match d.form with
+  | .plain => (match one t with | some v => s!"ok:{v}" | none => "err")
+  | _ =>
+    match (EnumText.splitSep t []).foldl (fun acc l => match acc, one l with
+      | some m, some v => some (m ||| v) | _, _ => none) (some 0) with
+    | some v => s!"ok:{v}"
+    | none => "err"
+
 def initLine (r : Except Msg.InitErr Msg.RW) : String :=
   match r with
   | .error e => "err:" ++ (match e with
@@ -128,6 +165,8 @@ def step (ds : DState) (line : String) : DState × String :=
     match id.toNat?, decStruct name body with
     | some i, some st =>
       let r := Msg.init st
+      let oldDefs := (ds.allDefs.lookup dn).getD []
+      let ds := { ds with allDefs := (dn, oldDefs ++ [(UInt32.ofNat i, st)]) :: ds.allDefs.filter (·.1 != dn) }
       let ds' := match r with
         | .ok rw =>
           let old := (ds.dialects.lookup dn).getD []
@@ -183,6 +222,55 @@ def step (ds : DState) (line : String) : DState × String :=
           | _ => (acc.1, acc.2 ++ ["bad-item"])) (0, [])
         " ".intercalate outs ++ "\t" ++ " ".intercalate souts
       | _, _, _, _, _ => "bad-op")
+  | ["defenum", name, form, consts] =>
+    let cs : List (String × Nat) := if consts.isEmpty then [] else (consts.splitOn ",").filterMap (fun kv =>
+      match kv.splitOn "=" with
+      | [k, v] => v.toNat?.map (fun n => (k, n))
+      | _ => none)
+    let f : EnumText.Marshal := match form.splitOn ":" with
+      | ["plain"] => .plain
+      | ["loop", n] => .bitLoop (n.toNat?.getD 0)
+      | ["list", vs] => .valueList (if vs.isEmpty then [] else (vs.splitOn ";").filterMap String.toNat?)
+      | ["list"] => .valueList []
+      | _ => .plain
+    let d : EnumText.EnumDef := { name := name, form := f, consts := cs }
+    ({ ds with enums := (name, d) :: ds.enums }, if EnumText.namesOk d then "ok" else "bad-names")
+  | ["etext", name, dir, arg] =>
+    (ds, match ds.enums.lookup name with
+      | none => "no-such-enum"
+      | some d =>
+        if dir == "m" then
+          match arg.toNat? with
+          | some v =>
+            let t := EnumText.marshal d (UInt64.ofNat v)
+            let hexs := toHex (String.ofList t).toUTF8.toList
+            "t:" ++ (if t.isEmpty then "-" else hexs) ++ "\t" ++ specEnumMarshal d (UInt64.ofNat v)
+          | none => "bad-op"
+        else
+          match fromHex arg with
+          | some bs =>
+            -- texts are ASCII in every generated case; a non-ASCII byte can never be part of a name or numeral
+            let t : List Char := bs.map (fun b => Char.ofNat b.toNat)
+            (match EnumText.unmarshal d t with
+            | some v => s!"ok:{v}"
+            | none => "err") ++ "\t" ++ specEnumUnmarshal d t
+          | none => "bad-op")
+  | ["defpkg", dn, id, v] => ({ ds with defPkgs := (dn ++ " " ++ id, v) :: ds.defPkgs }, "ok")
+  | ["dtype", dn, id] => (ds, (ds.defPkgs.lookup (dn ++ " " ++ id)).getD "none")
+  | ["dinit", dn] =>
+    (ds, match Dialect.init ((ds.allDefs.lookup dn).getD []) [] with
+      | .ok tbl => s!"ok n={tbl.length}"
+      | .error (.duplicate id) => s!"err:duplicate-{id}"
+      | .error (.msg id _) => s!"err:message-{id}")
+  | ["dget", dn, id] =>
+    (ds, match id.toNat?, Dialect.init ((ds.allDefs.lookup dn).getD []) [] with
+      | some i, .ok tbl =>
+        (match Dialect.getMessage tbl (UInt32.ofNat i) with
+        | some rw =>
+          let nm := (((ds.allDefs.lookup dn).getD []).lookup (UInt32.ofNat i)).map (·.name)
+          s!"crc={rw.crcExtra} name={nm.getD "?"}"
+        | none => "none")
+      | _, _ => "bad-op")
   | ["hop", dn, stream, hops] =>
     (ds, match decStream stream, hops.toNat? with
       | some s, some h =>
